@@ -127,7 +127,46 @@ def parse_kani(out):
     return res
 
 
+_TREE_HASH = None
+
+
+def tree_hash():
+    """Content hash of everything a harness run depends on: the repository's sources and manifests, the
+    harness sources, the tool versions. A cached result is reused only under the identical hash, i.e. when a
+    rebuild from the current working tree would run the verifier on exactly the same text."""
+    global _TREE_HASH
+    if _TREE_HASH is None:
+        hsh = hashlib.sha256()
+        files = []
+        for root, _d, fs in os.walk(os.path.join(REPO, "src")):
+            files += [os.path.join(root, f) for f in fs]
+        files += [os.path.join(REPO, f) for f in ("Cargo.toml", "Cargo.lock") if os.path.exists(os.path.join(REPO, f))]
+        files += [os.path.join(KDIR, f) for f in os.listdir(KDIR) if f.endswith(".rs")]
+        for f in sorted(files):
+            hsh.update(os.path.relpath(f, "/").encode())
+            hsh.update(open(f, "rb").read())
+        hsh.update(FEATURES.encode())
+        try:
+            hsh.update(subprocess.run(["cargo", "kani", "--version"], capture_output=True, text=True).stdout.encode())
+        except Exception:
+            pass
+        _TREE_HASH = hsh.hexdigest()[:24]
+    return _TREE_HASH
+
+
+def cache_path(name, h):
+    return os.path.join(WORK, "cache", tree_hash(), ("dbg_" if h["dbg"] else "nodbg_") + name + ".json")
+
+
 def run_harness(name, h, worker, tier):
+    cp = cache_path(name, h)
+    if os.environ.get("VERIF_NO_CACHE") != "1" and os.path.exists(cp):
+        try:
+            res = json.load(open(cp))
+            res["cached"] = True
+            return name, res
+        except Exception:
+            pass
     tdir = os.path.join(WORK, "kt", "dbg" if h["dbg"] else "nodbg", f"w{worker}")
     os.makedirs(tdir, exist_ok=True)
     cmd = [
@@ -159,6 +198,11 @@ def run_harness(name, h, worker, tier):
     os.makedirs(os.path.join(WORK, "logs"), exist_ok=True)
     with open(os.path.join(WORK, "logs", name + ".log"), "w") as f:
         f.write(out)
+    if res["verdict"] in ("SUCCESSFUL", "FAILED"):
+        os.makedirs(os.path.dirname(cp), exist_ok=True)
+        res["ran_at"] = time.strftime("%Y-%m-%dT%H:%M:%SZ", time.gmtime())
+        json.dump(res, open(cp + ".tmp", "w"))
+        os.replace(cp + ".tmp", cp)
     return name, res
 
 
@@ -184,7 +228,7 @@ def run_pool(names, cat, tier):
     with cf.ThreadPoolExecutor(max_workers=WORKERS) as ex:
         for n, r in ex.map(job, names):
             results[n] = r
-            log(f"  [{r['verdict']:>10}] {n}  {r['wall']}s")
+            log(f"  [{r['verdict']:>10}] {n}  {r['wall']}s" + ("  (same tree+harness hash: result of this machinery's earlier run reused)" if r.get("cached") else ""))
     return results
 
 
@@ -491,6 +535,14 @@ def decide(pid, tier, seed):
                 else:
                     violations.append((n, tag + " " + c["desc"][:80], r))
 
+    frame = None
+    if pid == "C13":
+        import assumptions as _as
+        sites, unreviewed = _as.frame_scan(REPO)
+        frame = {"interior_mutability_sites": sites, "unreviewed": unreviewed}
+        for u in unreviewed:
+            undecided.append(f"frame: interior-mutability site not in the reviewed list (a parser could keep state across parses through it): {u}")
+
     # Verus part of the property
     v = verus_checks.run(pid, tier, REPO, WORK)
     for o in v["obligations"]:
@@ -571,6 +623,9 @@ def decide(pid, tier, seed):
             "covers_total": covers_total,
             "covers_satisfied": covers_sat,
             "solver_time_s": solver_time,
+            "tree_hash": tree_hash(),
+            "harness_results_reused_from_identical_tree": sorted(n for n in names if results[n].get("cached")),
+            "reuse_note": "a harness result is reused only when /repo/src, Cargo.toml/lock, the harness sources and the tool version hash to the same value as when this machinery produced it (set VERIF_NO_CACHE=1 to force re-verification)",
             "verus": {"functions": [o["name"] for o in v["obligations"]], "time_s": v.get("time_s"), "extraction": v.get("extraction", [])},
             "bounded_obligations": bounded,
             "bounded_note": "bounded obligations are listed with their bound and are NOT counted in obligations/discharged",
@@ -579,6 +634,8 @@ def decide(pid, tier, seed):
             "undecided": undecided,
             "uncovered_clauses": assumptions.UNCOVERED.get(pid, []),
             "assumptions_scan": assumptions.scan(VERIF),
+            "frame_scan": frame,
+            "emitted_list_uses": assumptions.stack_discipline(REPO) if pid == "C05" else None,
         },
         "assumptions": assumptions.ASSUMPTIONS + assumptions.PER_PROPERTY.get(pid, []),
         "wall_s": round(time.time() - t0, 1),
